@@ -129,6 +129,7 @@ DoGetAssignments(v, c, e) ==
 (* only while no StreamDeleted(s, _) is outstanding at v.                  *)
 
 Quiet(v, s) == \A x \in pend[v] : x.s # s
+Seq2SetS(q) == {q[i] : i \in DOMAIN q}
 
 C12_ExactlyOne ==
   \A v \in Servers : gs[v].exists =>
@@ -145,11 +146,17 @@ C12_Balanced ==
     ((\A s \in DOMAIN gs[v].heap : Quiet(v, s)) => Balanced(gs[v]))
 
 \* servers that applied the same operations hand out identical assignments
-\* for the same group epoch
+\* for the same group epoch.  As above, a stream whose deletion is still to be
+\* announced on one of the two servers is left out of the comparison (the
+\* announcement reads the partition counts when it runs, so the servers may
+\* differ on such a stream until both have processed it).
+StreamView(g, s) == [c \in Members(g) |-> [sub |-> s \in g.subs[c],
+                                           asg |-> IF s \in DOMAIN g.asg[c] THEN g.asg[c][s] ELSE <<>>]]
 C12_SameEpochSame ==
   \A v, w \in Servers :
     (gs[v].exists /\ gs[w].exists /\ gs[v].epoch = gs[w].epoch) =>
-       (gs[v].asg = gs[w].asg /\ gs[v].subs = gs[w].subs)
+       /\ Members(gs[v]) = Members(gs[w])
+       /\ \A s \in Seq2SetS(StreamOrder) : (Quiet(v, s) /\ Quiet(w, s)) => StreamView(gs[v], s) = StreamView(gs[w], s)
 
 \* once every announcement has been processed the servers agree entirely
 C12_Converged ==
